@@ -98,3 +98,92 @@ def replay_ident(p):
         got = bool(dlde._ident_pattern.match(t)); exp = spec_is_ident(t)
         if got != exp: return {"violated": True, "detail": f"Ident.is_ident_line({t!r}) == {got}, specified language says {exp}", "found_by": "bounded search"}
     return {"violated": False, "inconclusive": True, "detail": "no distinguishing text found"}
+
+# ----------------------------------------------------------------------------- ModeDReader: run-time contracts and bounded API-level search
+MAX_P1 = 8191
+def p1_state_check(r, G, delivered_end):
+    """clauses of props/dlde_model.p1_inv + read() postconditions, evaluated on the real reader after a read() call"""
+    bad = []; b = r._buffer._buffer; pos = r._buffer._buffer_pos; raw = bytes(r._raw_data)
+    if not (0 <= pos <= len(b)): return ["buffer position in range"]
+    pending = bytes(b[pos:]); gp = len(G) - len(pending)
+    if pending != G[gp:]: bad.append("ghost: unconsumed input is the tail of the stream received so far")
+    if b"\n" in pending: bad.append("no complete line is left unconsumed")
+    if len(b) + len(raw) > MAX_P1: bad.append(f"C19 len(buffer) + len(collected) = {len(b) + len(raw)} > {MAX_P1}")
+    if r._is_int_hunt_mode:
+        if raw: bad.append("hunt mode => no collected octets")
+    else:
+        if not raw or raw != G[gp - len(raw):gp]: bad.append("ghost: collected octets are the contiguous stream segment that ends at the read position")
+        elif raw[0] != 0x2F: bad.append("collected octets start with '/'")
+        else:
+            first = raw.split(b"\n")[0] + b"\n"
+            if b"\n" not in raw or not first.isascii() or not spec_is_ident(first.decode("ascii")): bad.append("collected octets start with a complete ASCII identification line")
+    return bad
+
+def p1_history_check(chunks, clause_filter=None):
+    r = dlde.ModeDReader(); G = b""; fed = []
+    for ch in chunks:
+        G += ch; fed.append(ch)
+        try: out = r.read(ch)
+        except Exception as ex: return {"history": short_hist(fed), "raised": repr(ex), "broken": [f"C14 read raised {ex!r}"]}
+        bad = p1_state_check(r, G, None)
+        consumed = len(G) - (len(r._buffer._buffer) - r._buffer._buffer_pos)
+        for ro in out:
+            try:
+                a = ro.as_bytes; ro.is_valid; ro.payload; ro.message_type
+            except Exception as ex: bad.append(f"C14 message property raised {ex!r}"); continue
+            if a not in G[:consumed]: bad.append("returned readout is not a contiguous segment of the consumed input")
+            if a[:1] != b"/" or not a.endswith(b"\n") or b"\n!" not in a: bad.append("returned readout is not '/'...'!' line")
+        if clause_filter: bad = [x for x in bad if any(c in x for c in clause_filter)]
+        if bad: return {"history": short_hist(fed), "broken": bad[:4]}
+    return None
+def short_hist(fed):
+    return [(c.decode("latin1") if len(c) <= 60 else f"<{len(c)} octets starting {c[:16]!r}>") for c in fed][-6:]
+
+def gen_p1_streams(rnd, n):
+    good = list(gen_readouts(rnd, 12))
+    noise = [b"/", b"!", b"\n", b"\r\n", b"/AB\xff5\r\n", b"/ABC5\r\n", b"x", b"!zz\r\n", b"\x7e\xa0", b"/ABC5id!x\r\n"]
+    for _ in range(n):
+        parts = [rnd.choice(good) if rnd.random() < 0.5 else rnd.choice(noise) for _ in range(rnd.randrange(1, 8))]
+        s = b"".join(parts); cuts = sorted(rnd.sample(range(len(s) + 1), min(len(s) + 1, rnd.randrange(0, 5))))
+        yield [s[a:b] for a, b in zip([0] + cuts, cuts + [len(s)])]
+LONG = [[b"/" + b"x" * 3000] * 6, [b"/ABC5\r\n"] + [b"1-0:1.8.0(1)\r\n" * 200] * 8, [b"x" * 5000] * 4, [b"/ABC5\r\n" * 400] * 6]
+
+def replay_p1_read(p):
+    obl = p.get("obligation", ""); clause = obl.split("#", 1)[1] if "#" in obl else ""
+    key = None
+    for c in ("C19", "C14", "hunt mode", "contiguous", "identification line", "left unconsumed", "tail of the stream", "start with '/'"):
+        if c in clause: key = [c]; break
+    rnd = random.Random(2)
+    for chunks in LONG + list(gen_p1_streams(rnd, 1500)):
+        v = p1_history_check(chunks, key)
+        if v: return {"violated": True, "detail": v, "found_by": "bounded API-level search"}
+    return {"violated": False, "inconclusive": True, "detail": "bounded API-level search found no history breaking this clause"}
+
+def clean_stream_check(p):
+    """C05 bounded stand-in: clean streams of well-formed readouts (optionally after the tail of a readout), every chunking tried from a fixed family;
+    every readout must be returned once, in order, byte-identical and valid."""
+    rnd = random.Random(p.get("seed", 0)); n = p.get("n", 300); ev = 0; distinct = set(); bad = []
+    for it in range(n):
+        k = rnd.randrange(1, 30 if it % 10 else 200)
+        ros = []
+        for _ in range(k):
+            ident = rnd.choice([b"/AUX5UXXXXXXXXXXXXXXX", b"/KFM5KAIFA-METER", b"/ADN9 6534", b"/ABC5"]); eol = b"\r\n"
+            lines = [rnd.choice([b"1-0:1.8.0(00006678.394*kWh)", b"0-0:1.0.0(210217184019W)", b"1-0:32.7.0(240.3*V)", b"0-0:96.1.1(4B384547303034303436333935353037)"]) for _ in range(rnd.randrange(0, 40))]
+            body = ident + eol + eol + b"".join(l + eol for l in lines) + b"!"
+            cs = (b"%04X" % sp.crc16_arc(body)) if rnd.random() < 0.85 else b""
+            ros.append(body + cs + eol)
+        tail = rnd.choice([b"", b"", b"7.0(240.3*V)\r\n!ABCD\r\n", b"\r\n"])
+        s = tail + b"".join(ros)
+        size = rnd.choice([1, 7, 64, 100, 1000, 4096, len(s)])
+        chunks = [s[i:i + size] for i in range(0, len(s), size)] if rnd.random() < 0.7 else None
+        if chunks is None:
+            cuts = sorted(rnd.sample(range(len(s) + 1), min(len(s) + 1, rnd.randrange(0, 12)))); chunks = [s[a:b] for a, b in zip([0] + cuts, cuts + [len(s)])]
+        r = dlde.ModeDReader(); got = []
+        for ch in chunks: got += r.read(ch)
+        ev += 1; distinct.add((len(s), size, k))
+        gb = [g.as_bytes for g in got]
+        if gb != ros or not all(g.is_valid for g in got):
+            bad.append({"readouts": k, "chunk_size": size, "stream_len": len(s), "delivered": len(gb), "first_missing_or_wrong": next((i for i, (x, y) in enumerate(zip(gb + [None] * k, ros)) if x != y), None)})
+            break
+    return {"name": "clean_p1_stream (C05 lemma as bounded stand-in)", "bound": f"{n} streams of 1..200 well-formed readouts (0..40 data lines), fixed-size chunks 1/7/64/100/1000/4096/whole and random cuts", "evaluations": ev,
+            "distinct_nontrivial": len(distinct), "violations": bad[:2]}
